@@ -343,15 +343,20 @@ def work_graphs(task):
     mats = task
     res = Res()
     for kind, A in mats:
+        edges = kind == "bipartite-edges"
+        Bm = A
+        if edges:  # the matrix of edge weights between the two vertex sets; the graph has twice as many nodes
+            A = np.block([[np.zeros_like(Bm), Bm], [Bm.T, np.zeros_like(Bm)]])
         k = A.shape[0]
+        ident = "|identity-matrix" if np.array_equal(Bm, np.eye(len(Bm))) else ""
         for nbar in (0.5, 1.0):
             res.n += 1
             regs = [RegRef(i) for i in range(k)]
-            case = {"kind": kind, "A": A.tolist(), "mean_photon": nbar}
+            case = {"kind": kind, "A": Bm.tolist(), "mean_photon": nbar}
             try:
                 with warnings.catch_warnings():
                     warnings.simplefilter("ignore")
-                    op = ops.GraphEmbed(A, mean_photon_per_mode=nbar) if kind == "graph" else ops.BipartiteGraphEmbed(A, mean_photon_per_mode=nbar)
+                    op = ops.GraphEmbed(A, mean_photon_per_mode=nbar) if kind == "graph" else (ops.BipartiteGraphEmbed(Bm, mean_photon_per_mode=nbar, edges=True) if edges else ops.BipartiteGraphEmbed(A, mean_photon_per_mode=nbar))
                     out = decompose("gaussian", Command(op, regs))
                 got = sem_of(out, k)
             except Exception as e:
@@ -364,9 +369,9 @@ def work_graphs(task):
             mask = np.abs(A) > 0
             c = float(np.real(np.vdot(A[mask], B[mask]) / np.vdot(A[mask], A[mask])))
             if abs(nb - nbar) > 1e-7:
-                res.violation(f"C02|{kind}|mean-photon", f"{kind} embedding of a {k}-node graph has mean photon number per mode {nb:.6g}, requested {nbar}", case)
+                res.violation(f"C02|{kind}|mean-photon{ident}", f"{kind} embedding of a {k}-node graph has mean photon number per mode {nb:.6g}, requested {nbar}", case)
             elif c <= 0 or np.max(np.abs(B - c * A)) > 1e-7:
-                res.violation(f"C02|{kind}|adjacency", f"{kind} embedding of a {k}-node graph: state's A matrix is not a positive multiple of the adjacency matrix (best c = {c:.4g}, residual {np.max(np.abs(B - c * A)):.3g})", case)
+                res.violation(f"C02|{kind}|adjacency{ident}", f"{kind} embedding of a {k}-node graph: state's A matrix is not a positive multiple of the adjacency matrix (best c = {c:.4g}, residual {np.max(np.abs(B - c * A)):.3g})", case)
     return res
 
 
@@ -425,6 +430,16 @@ def run(ctx):
             if Bm.any():
                 A = np.block([[np.zeros((k, k)), Bm], [Bm.T, np.zeros((k, k))]])
                 graphs.append(("bipartite", A))
+    # graphs with self-loops (diagonal weights) incl. the identity matrix; edge-weight matrices given directly
+    for k in (1, 2, 3):
+        graphs.append(("graph", np.eye(k)))
+        graphs.append(("graph", 0.5 * np.eye(k)))
+    graphs.append(("graph", np.array([[1.0, 0.5], [0.5, 0.3]])))
+    for k in (1, 2):
+        for bits in itertools.product([0, 1, 0.5], repeat=k * k):
+            Bm = np.array(bits, dtype=float).reshape(k, k)
+            if Bm.any():
+                graphs.append(("bipartite-edges", Bm))
     ch = max(1, len(graphs) // 32)
     for r in ctx.pmap(work_graphs, [graphs[i : i + ch] for i in range(0, len(graphs), ch)]):
         ctx.add(r)
